@@ -806,6 +806,7 @@ class ParametricSpectrum(Spectrum):
         self.__ma_order = ma_order
         self.ar_order = ar_order
         self.ma_order = ma_order
+        self.__lag = None
         self.lag = lag
         # will be populated when running an ARMA PSD estimate
         self.__ar = None
@@ -837,6 +838,16 @@ class ParametricSpectrum(Spectrum):
     def _get_ma_order(self):
         return self.__ma_order
     ma_order = property(fget=_get_ma_order, fset=_set_ma_order, doc="")
+
+    def _set_lag(self, lag):
+        if lag == self.__lag:
+            return
+        self.__lag = lag
+        self.modified = True
+    def _get_lag(self):
+        return self.__lag
+    lag = property(fget=_get_lag, fset=_set_lag, doc="""Getter/Setter of the
+        lag used by the ARMA estimate. If changed, the PSD is recomputed.""")
 
     def _set_ma(self, ma):
         self.__ma = ma
